@@ -1,6 +1,7 @@
 package main
 
 import (
+	"bytes"
 	"encoding/json"
 	"reflect"
 
@@ -72,7 +73,15 @@ func spellRun(src []byte) (spellSide, []map[string]interface{}) {
 			if ts, ok := m["tokens"].([]map[string]interface{}); ok {
 				for _, t := range ts {
 					if t["typ"] != "WHITESPACE" {
-						toks = append(toks, map[string]interface{}{"typ": t["typ"], "val": t["val"]})
+						val := t["val"]
+						switch t["typ"] {
+						case "TAG_OPEN", "TAG_CLOSE", "PRINT_OPEN", "PRINT_CLOSE":
+							// the white-space-control marker is formatting
+							if b, ok := val.(Bytes); ok {
+								val = Bytes(bytes.Replace([]byte(b), []byte("-"), nil, -1))
+							}
+						}
+						toks = append(toks, map[string]interface{}{"typ": t["typ"], "val": val})
 					}
 				}
 			}
